@@ -358,8 +358,212 @@ def compare_cbor(b, major, info, o):
         return ('utf8', 'text string not UTF-8 validated', line)
     return None
 
+# ------------------------------------------------------------------------------------------------
+def typed_number_row(o, rt, event, conv_fn, line):
+    """Shared check of a fixed-width number row: one payload read of WIDTH[rt], conversion <CTYPE[rt]> with conv_fn, one event."""
+    ev = [e for e in o.main_events()]
+    if len(ev) != 1 or ev[0][0] != event:
+        return ('event', 'expected exactly one %s event, found %s' % (event, [e[0] for e in o.events] or 'none'), line)
+    reads = [r for r in o.reads if not r[1]]
+    if len(reads) != 1 or reads[0][0] != WIDTH[rt]:
+        return ('payload', 'reads %s payload bytes, specification says %d' % ([r[0] for r in reads], WIDTH[rt]), ev[0][3])
+    conv = [c for c in o.conv if not c[3]]
+    if conv:
+        if conv[0][0] != conv_fn: return ('order', 'payload converted with %s, specification byte order needs %s' % (conv[0][0], conv_fn), conv[0][4])
+        if conv[0][1] != CTYPE[rt]: return ('type', 'payload converted as %s, specification says %s' % (conv[0][1], rt), conv[0][4])
+    elif WIDTH[rt] != 1 or rt == 'int8':
+        return ('type', 'payload of type %s is not converted' % rt, ev[0][3])
+    return None
+
+def check_ubjson(chk, tier):
+    rid = 'R07.ubjson'
+    chk.rule(rid, 'basic_ubjson_parser::read_value and get_length: for every marker byte 0..255 the payload width/type, UTF-8 '
+                  'validation, event/tag, negative-length rejection or error equal the UBJSON draft-12 marker table', floor=512)
+    facts = F.load(['ubjson'], tier); chk.units.append('ubjson')
+    sp = spec('ubjson.json')
+    markers = {ord(k): v for k, v in sp['markers'].items()}
+    follow = same_class_follow('basic_ubjson_parser')
+    fns = U.functions(facts, cls='basic_ubjson_parser', name='read_value')
+    chk.require(fns, 'basic_ubjson_parser::read_value not found')
+    for fn in fns:
+        chk.analysed(fn)
+        for b in range(256):
+            o = Obs(run_byte(facts, fn, {'type': b}, follow), skip_first_read=False)
+            row = markers.get(b)
+            bad = compare_ubjson_value(b, row, o)
+            fam = ('marker=%s' % chr(b)) if row else 'marker=other'
+            facts_ = {'byte': '0x%02x' % b, 'spec': row, 'observed': o.summary(), 'instantiation': fn['q']}
+            if bad: chk.fail(rid, U.site(fn, fam) + ' ' + bad[0], fn['file'], bad[2] or fn['l'], 'marker 0x%02x %r: %s' % (b, chr(b) if 32 <= b < 127 else '', bad[1]), facts_, fn['q'])
+            else: chk.ok(rid, U.site(fn, 'byte=0x%02x' % b), facts_ if chr(b) in 'ZiUSH[x' else None)
+    gl = U.functions(facts, cls='basic_ubjson_parser', name='get_length')
+    chk.require(gl, 'basic_ubjson_parser::get_length not found')
+    ltypes = {ord(c): markers[ord(c)]['read_type'] for c in sp['length_types']}
+    for fn in gl:
+        chk.analysed(fn)
+        for b in range(256):
+            o = Obs(run_byte(facts, fn, {'type': b}, follow), skip_first_read=True)
+            bad = None
+            line = first_line(o) or fn['l']
+            if b in ltypes:
+                rt = ltypes[b]
+                reads = [r for r in o.reads if not r[1]]
+                if len(reads) != 1 or reads[0][0] != WIDTH[rt]:
+                    bad = ('width', 'length of type %s read as %s bytes' % (rt, [r[0] for r in reads]), line)
+                else:
+                    conv = [c for c in o.conv if not c[3]]
+                    if conv and (conv[0][0] != 'big_to_native' or conv[0][1] != CTYPE[rt]):
+                        bad = ('type', 'length converted with %s<%s>, specification says big-endian %s' % (conv[0][0], conv[0][1], rt), conv[0][4])
+                    elif not conv and rt != 'uint8':
+                        bad = ('type', 'length of type %s not converted' % rt, line)
+                    elif rt.startswith('int') and not any(e[0].endswith('length_is_negative') for e in o.errors):
+                        bad = ('negative', 'signed length type %s has no length_is_negative rejection' % rt, line)
+                    elif o.main_errors():
+                        bad = ('error', 'stores %s unconditionally' % o.main_errors()[0][0], o.main_errors()[0][2])
+            else:
+                if not o.main_errors():
+                    bad = ('error', 'byte is not a length type but no error is stored', line)
+            fam = 'length_marker=%s' % (chr(b) if b in ltypes else 'other')
+            facts_ = {'byte': '0x%02x' % b, 'observed': o.summary(), 'instantiation': fn['q']}
+            if bad: chk.fail(rid, U.site(fn, fam) + ' ' + bad[0], fn['file'], bad[2], 'length marker 0x%02x: %s' % (b, bad[1]), facts_, fn['q'])
+            else: chk.ok(rid, U.site(fn, 'byte=0x%02x' % b), facts_ if b in ltypes else None)
+
+def compare_ubjson_value(b, row, o):
+    line = first_line(o)
+    evn = [e[0] for e in o.events]
+    if row is None or chr(b) in ']}':
+        if o.events: return ('event', 'non-value marker produces %s' % evn, o.events[0][3])
+        if not o.main_errors(): return ('error', 'non-value marker stores no error', line)
+        return None
+    c = chr(b)
+    if o.main_errors(): return ('error', 'stores error %s unconditionally' % o.main_errors()[0][0], o.main_errors()[0][2])
+    if c == 'N':
+        if o.events: return ('event', 'no-op produces %s' % evn, o.events[0][3])
+        return None
+    if c == 'Z':
+        return None if [e[0] for e in o.main_events()] == ['null_value'] else ('event', 'expected null_value, found %s' % evn, line)
+    if c in 'TF':
+        ev = o.main_events()
+        if [e[0] for e in ev] != ['bool_value']: return ('event', 'expected bool_value, found %s' % evn, line)
+        if ev[0][1][0] != (1 if c == 'T' else 0): return ('value', 'bool value %s' % ev[0][1][0], ev[0][3])
+        return None
+    if 'read_type' in row:
+        bad = typed_number_row(o, row['read_type'], row['event'] + '_value', 'big_to_native', line)
+        if bad: return bad
+        if tag_of(o.main_events()[0][1]) != 'none': return ('tag', 'tag %s on a plain number' % tag_of(o.main_events()[0][1]), line)
+        return None
+    if c == 'C':
+        ev = o.main_events()
+        if [e[0] for e in ev] != ['string_value']: return ('event', 'expected string_value, found %s' % evn, line)
+        reads = [r for r in o.reads if not r[1]]
+        if [r[0] for r in reads] != [1]: return ('payload', 'char reads %s bytes' % [r[0] for r in reads], line)
+        if not o.validates: return ('utf8', 'char is not UTF-8 validated', line)
+        return None
+    if c in 'SH':
+        names = set(evn)
+        if names != {'string_value'}: return ('event', 'expected string_value, found %s' % evn, line)
+        if not any(not s[1] for s in o.spans): return ('payload', 'payload not read with read_span', line)
+        # length comes from get_length (inlined): its marker read + payload are guarded by the unknown marker
+        if c == 'S':
+            if not o.validates: return ('utf8', 'string is not UTF-8 validated', line)
+            if tag_of(o.main_events()[0][1]) != 'none': return ('tag', 'tag %s on a string' % tag_of(o.main_events()[0][1]), line)
+        else:
+            tags = sorted(set(tag_of(e[1]) for e in o.events))
+            if tags != ['bigdec', 'bigint']: return ('tag', 'high-precision number tags %s, expected bigint/bigdec' % tags, line)
+        return None
+    if c == '[':
+        return None if 'begin_array' in evn and 'begin_object' not in evn else ('event', 'expected begin_array, found %s' % evn, line)
+    if c == '{':
+        return None if 'begin_object' in evn and 'begin_array' not in evn else ('event', 'expected begin_object, found %s' % evn, line)
+    return ('spec', 'unhandled marker', line)
+
+# ------------------------------------------------------------------------------------------------
+def check_bson(chk, tier):
+    rid = 'R07.bson'
+    chk.rule(rid, 'basic_bson_parser::read_value: for every element type byte 0..255 the payload width/type (little-endian), '
+                  'event/tag or error equal the BSON 1.1 element table', floor=256)
+    facts = F.load(['bson'], tier); chk.units.append('bson')
+    sp = spec('bson.json')
+    types = {int(k, 16): v for k, v in sp['types'].items()}
+    follow = same_class_follow('basic_bson_parser')
+    fns = U.functions(facts, cls='basic_bson_parser', name='read_value')
+    chk.require(fns, 'basic_bson_parser::read_value not found')
+    for fn in fns:
+        chk.analysed(fn)
+        for b in range(256):
+            o = Obs(run_byte(facts, fn, {'type': b}, follow), skip_first_read=False)
+            row = types.get(b)
+            bad = compare_bson(b, row, o)
+            fam = 'type=0x%02x(%s)' % (b, row['name']) if row else 'type=other'
+            facts_ = {'byte': '0x%02x' % b, 'spec': row, 'observed': o.summary(), 'instantiation': fn['q']}
+            if bad: chk.fail(rid, U.site(fn, fam) + ' ' + bad[0], fn['file'], bad[2] or fn['l'], 'element type 0x%02x (%s): %s' % (b, row['name'] if row else 'undefined', bad[1]), facts_, fn['q'])
+            else: chk.ok(rid, U.site(fn, 'byte=0x%02x' % b), facts_ if b in (1, 2, 5, 8, 0x10, 0x12, 0x20) else None)
+
+BSON_EVENT = {0x01: 'double_value', 0x09: 'int64_value', 0x10: 'int64_value', 0x11: 'uint64_value', 0x12: 'int64_value'}
+
+def compare_bson(b, row, o):
+    line = first_line(o)
+    evn = [e[0] for e in o.events]
+    if row is None:
+        if o.events: return ('event', 'undefined element type produces %s' % evn, o.events[0][3])
+        if not o.main_errors(): return ('error', 'undefined element type stores no error', line)
+        return None
+    if b in BSON_EVENT:
+        return typed_number_row(o, row['read_type'], BSON_EVENT[b], 'little_to_native', line)
+    if b in (0x06, 0x0a):
+        ev = o.main_events()
+        if [e[0] for e in ev] != ['null_value']: return ('event', 'expected null_value, found %s' % evn, line)
+        if o.reads or o.spans: return ('payload', 'reads payload for a type without one', line)
+        if b == 0x06 and tag_of(ev[0][1]) != 'undefined': return ('tag', 'undefined mapped with tag %s' % tag_of(ev[0][1]), ev[0][3])
+        return None
+    if b == 0x08:
+        reads = [r for r in o.reads if not r[1]]
+        if [r[0] for r in reads] != [1]: return ('payload', 'boolean reads %s bytes' % [r[0] for r in reads], line)
+        if set(evn) != {'bool_value'}: return ('event', 'expected bool_value, found %s' % evn, line)
+        return None
+    if b in (0x03, 0x04):
+        want = 'begin_object' if b == 3 else 'begin_array'
+        if want not in evn: return ('event', 'expected %s, found %s' % (want, evn), line)
+        return None
+    if b in (0xff, 0x7f):
+        # specification: no payload
+        if o.reads or o.spans:
+            return ('payload', 'min/max key has no payload in the specification but %s payload bytes are read as a string' % [r[0] for r in o.reads], line)
+        return None
+    if b in (0x02, 0x0d, 0x0e):
+        if 'string_value' not in evn: return ('event', 'expected string_value, found %s' % evn, line)
+        reads = [r for r in o.reads if not r[1]]
+        if not reads or reads[0][0] != 4: return ('length', 'string length read as %s bytes, specification says int32' % [r[0] for r in reads], line)
+        conv = [c for c in o.conv if not c[3]]
+        if not conv or conv[0][0] != 'little_to_native' or conv[0][1] != 'int': return ('length', 'string length converted as %s' % (['%s<%s>' % (c[0], c[1]) for c in conv]), line)
+        if not o.validates: return ('utf8', 'string not UTF-8 validated', line)
+        return None
+    if b == 0x05:
+        if 'byte_string_value' not in evn: return ('event', 'expected byte_string_value, found %s' % evn, line)
+        reads = [r for r in o.reads if not r[1]]
+        if [r[0] for r in reads[:2]] != [4, 1]: return ('layout', 'binary header reads %s, specification says int32 length then subtype byte' % [r[0] for r in reads], line)
+        return None
+    if b == 0x07:
+        reads = [r for r in o.reads if not r[1]]
+        if [r[0] for r in reads] != [12]: return ('payload', 'ObjectId reads %s bytes, specification says 12' % [r[0] for r in reads], line)
+        if 'string_value' not in evn: return ('event', 'expected string_value(id), found %s' % evn, line)
+        return None
+    if b == 0x13:
+        reads = [r for r in o.reads if not r[1]]
+        if [r[0] for r in reads] != [16]: return ('payload', 'decimal128 reads %s bytes, specification says 16' % [r[0] for r in reads], line)
+        return None
+    if b == 0x0b:
+        if 'string_value' not in evn: return ('event', 'expected string_value(regex), found %s' % evn, line)
+        return None
+    if b in (0x0c, 0x0f):
+        # deprecated types: an error or a faithful read are both acceptable; silently producing nothing is not
+        if not o.events and not o.errors: return ('error', 'deprecated type neither decoded nor rejected', line)
+        return None
+    return ('spec', 'unhandled element type', line)
+
 def run(chk, tier, only_rule=None):
     chk.explanation = EXPLANATION
     chk.not_decided = NOT_DECIDED
     check_msgpack(chk, tier)
     check_cbor(chk, tier)
+    check_ubjson(chk, tier)
+    check_bson(chk, tier)
